@@ -1011,3 +1011,8 @@ def _r09_7(ctx: Ctx, rep: Report) -> None:
                 rep.ok(f"{f.qualname}: {snippet(n)}", allowed, nontrivial=False, where=where(f, n))
     rep.instance(reads)
     rep.floor(10, "reads of the names/numbers switches")
+
+
+# what the later rounds (seeding rounds 2-5, refactor twins, defect hunt) added to what the check decides
+LATER_ROUNDS = "platform and version travel together into every object the generator functions build, every rendered protocol and port name is in the reader's grammar, the token tables are the words they stand for"
+EXPLANATION = EXPLANATION.replace(" Does not decide", " Later rounds added: " + LATER_ROUNDS + ". Does not decide", 1) if " Does not decide" in EXPLANATION else EXPLANATION + " Later rounds added: " + LATER_ROUNDS + "."
